@@ -45,7 +45,7 @@ Q07 = [("restart", 30000), ("svcrestart", 3000), ("lifecycle", 12000), ("kinds",
 Q10 = [("timers", 30000), ("restart", 6000), ("handles", 6000), ("kinds", 6000), ("lifecycle", 4000), ("timeout", 10000), ("backpressure", 6000), ("mix", 10000)]
 Q11 = [("timeout", 40000), ("mailbox", 8000), ("lifecycle", 8000), ("backpressure", 4000), ("stream", 8000), ("timeout0", 3000), ("mix", 10000)]
 Q13 = [("stream", 30000), ("lifecycle", 10000), ("owning", 6000), ("mix", 10000)]
-Q14 = [("liveness", 30000), ("lifecycle", 10000), ("handles", 6000), ("faults+faults", 200), ("mix", 10000)]
+Q14 = [("liveness", 30000), ("registry", 16000), ("lifecycle", 10000), ("handles", 6000), ("faults+faults", 200), ("mix", 10000)]
 Q15 = [("kinds", 30000), ("handles", 12000), ("droprace", 2000), ("broker", 8000), ("stream", 6000), ("timeout", 8000), ("restart", 4000), ("lifecycle", 4000), ("mix", 10000)]
 
 Q06 = [("faults+faults", 700), ("tree+faults", 500), ("svcfaults+faults", 300), ("lifecycle+faults", 300), ("timeout", 8000), ("mix+faults", 200), ("broker+faults", 150)]
